@@ -25,7 +25,7 @@ def gen(rng):
 def run(ctx):
     if not hc.ensure_builds(ctx): hc.finish(ctx, 'builds failed')
     n = 500 if ctx.quick() else 12000
-    H, impl, model, dis, hits = hc.run_profile(ctx, gen, n, trigger=trigger, claims=lambda op, a, b: True)
+    H, impl, model, dis, hits = hc.run_profile(ctx, profiles.with_scenarios(gen), n, trigger=trigger, claims=lambda op, a, b: True)
     if not ctx.quick() and not hits:
         x = hist.x
         hc.exhaustive(ctx, 'edit sequences', ['SETUP', 'AH '+x('D'), 'AT '+x('D')+' '+x('a')+' 0 -', 'AT '+x('D')+' '+x('b')+' 1 '+x('a'), 'AT '+x('D')+' '+x('c')+' 0 '+x('b'), 'AA '+x('S'), 'AT '+x('S')+' '+x('p')+' 0 -', 'UPD', 'KG '+x('D::b'), 'KG '+x('D::c && S::p'), 'EN 1 '+x('D::a'), 'EN 1 '+x('D::c')],
